@@ -289,7 +289,28 @@ CLAIMED['C20'] = dict(
          'reported as KNOWN-FINDING only when the implementation agrees with the model and the atomic-insert switch removes the failure.',
     technique='Coq proof (program-counter invariants, induction over schedules) + gated replay of schedules on real threads')
 
-NOT_YET = {'C19': 'check being built this round (BDD model + behave end-to-end correspondence); not claimed yet'}
+CLAIMED['C19'] = dict(
+    category='proof',
+    text='Coq theorems over theories/Bdd.v (the hooks of environment.py as a state machine, the step functions of steps.py on top of the '
+         'sismic.testing predicates, behave\'s skip-after-first-failure and first-registered-pattern-wins, a matcher for parse-style '
+         'patterns), for an arbitrary abstract interpreter: a then step is reported passed iff the asserted fact holds of the block of '
+         'macro steps monitored since the then step preceding the most recent when step and of the interpreter\'s current state '
+         '(C19_verdict, C19_block, fact_b_sound), everything after the first failure is skipped (C19_skip), every given/when step has '
+         'exactly its documented effect followed by execute() (C19_given_when), every sismic.testing predicate is equivalent to its '
+         'reading over micro steps (C19_testing), and every documented spelling dispatches to the intended step function with the intended '
+         'arguments over the pattern list RE-EXTRACTED from steps.py on every run (C19_dispatch, gen_patterns_ok, gen_dispatch_ok; the '
+         'quotes of expression "..." holds never become part of the expression). Tied to the code end to end: generated feature files '
+         '(true and false assertions alike, one assertion under test per scenario, repeat/reproduce/tables/parameters) are run through the '
+         'real execute_bdd and the sismic-bdd CLI; per-step statuses are compared with an independent oracle interpreter and with the '
+         'model; the testing predicates and behave\'s own matcher registry are compared directly.',
+    design_ref='DESIGN.md section 6 (C19)',
+    note='Trusted: Coq kernel+VM; hand-written model validated differentially; behave (Gherkin parsing, hook invocation, nested '
+         'execute_steps, JSON formatter) and parse are third-party, exercised end to end and not modelled beyond the four behaviours named '
+         'above; numeric fields are proved complete for decimal digit strings only; Python eval of step arguments is represented by a '
+         'literal reader. The AST extractor is fail-soft (falls back to the documented pattern list and says so).',
+    technique='Coq proof (scenario induction over the hook state machine, matcher completeness) + end-to-end differential runs through behave')
+
+NOT_YET = {}
 
 ALL = ['C%02d' % i for i in range(1, 21)]
 
